@@ -1182,7 +1182,25 @@ def elem_eq_term(X, st, x, y):
 
 
 def list_index(X, st, selfv, item):
-    raise Unsupported("list.index")
+    """list.index(x) on a list of numbers: the least i with a[i] == x, ValueError when there is none"""
+    so = X.B.seqobj(st, selfv)
+    fx = X.B.num(item)
+    if so is None or fx is None or not isinstance(so, LList) or so.getter is None:
+        raise Unsupported("list.index")
+    out = []
+    for r in X.B.contains(st, selfv, item):
+        for s, has in X.branch(r.st, r.v.t):
+            if not has:
+                out.extend(X.raise_(s, "ValueError", "x not in list"))
+                continue
+            k = s.fresh("lindex", z3.IntSort())
+            fe = X.B.num(so.get(k))
+            s.add(k >= 0, k < so.length(), fx.eq(fe))
+            s.add_index(k)
+            i = z3.Int(f"lidx!{core.uid()}")
+            s.forall(i, z3.And(i >= 0, i < k), z3.Not(fx.eq(X.B.num(so.get(i)))), name="list-index-least")
+            out.append(Res(s, core.VInt(k)))
+    return out
 
 
 def sorted_(X, st, v, kw):
